@@ -195,7 +195,7 @@ pub fn check_ledger(c: &LedgerCase) -> Verdict {
 pub fn run(ctx: &Ctx) {
     ctx.set_rule("enumerated product: key state {fresh, middle, just before / at a subtree roll-over, last leaf, wiped, every truncation length 0..len-1, 1..3 extra bytes, all 256 values of every parameter byte, blob of another hash's length} x callback {accept, reject} x aux {none, fresh zero, valid, corrupted} x entry {hbs_lms::sign, SigningKey::try_sign, try_sign_with_aux}; recording callback; oracle: Ok(sig) => exactly one call, it returned Ok, its argument is the model successor key; callback Err => Err; precondition failure => zero calls and Err; never two calls; SigningKey: Ok => key bytes == successor, Err => key bytes unchanged. Non-trivial = callback rejects, or a precondition fails, or the last leaf; distinct by serialized case.");
     ctx.assume("a panic is recorded with its call count and handed to C11; it is a C04 violation only if the callback had already been invoked on a failing precondition");
-    let hashes: Vec<HashId> = if ctx.quick() { vec![HashId::Sha256_256, HashId::Shake256_192, HashId::Sha256_128] } else { ALL_HASHES.to_vec() };
+    let hashes: Vec<HashId> = ALL_HASHES.to_vec();
     let shapes: Vec<Vec<Level>> = if ctx.quick() {
         vec![vec![(8, 2)], vec![(4, 2), (8, 2)], vec![(8, 2), (4, 5), (4, 2)]]
     } else {
@@ -204,7 +204,7 @@ pub fn run(ctx: &Ctx) {
     let mut items: Vec<LedgerCase> = Vec::new();
     for (hi, h) in hashes.iter().enumerate() {
         for (si, s) in shapes.iter().enumerate() {
-            if ctx.quick() && (hi + si) % hashes.len() != 0 {
+            if ctx.quick() && (hi + si) % 2 != 0 {
                 continue;
             }
             let total: u64 = 1u64 << s.iter().map(|l| l.1).sum::<u32>();
